@@ -34,7 +34,7 @@ func ballStage(r *ev.Run, th bool) {
 		{"right", [3]model3d.Coord3D{model3d.XYZ(0, 0, 0), model3d.XYZ(1, 0, 0), model3d.XYZ(0, 1, 0)}},
 		{"obtuse", [3]model3d.Coord3D{model3d.XYZ(0, 0, 0), model3d.XYZ(2, 0, 0), model3d.XYZ(1.75, 0.25, 0.125)}},
 		{"generic", [3]model3d.Coord3D{model3d.XYZ(0.25, -0.25, 0.5), model3d.XYZ(1.125, 0.375, -0.25), model3d.XYZ(-0.25, 0.875, 0.75)}},
-		{"sliver", [3]model3d.Coord3D{model3d.XYZ(0, 0, 0), model3d.XYZ(1, 0, 0), model3d.XYZ(0.5, 1.0 / 1024, 0)}},
+		{"sliver", [3]model3d.Coord3D{model3d.XYZ(0, 0, 0), model3d.XYZ(1, 0, 0), model3d.XYZ(0.5, 1.0/1024, 0)}},
 		{"away from the origin", [3]model3d.Coord3D{model3d.XYZ(5, -3, 2), model3d.XYZ(6, -3, 2.5), model3d.XYZ(5.5, -2, 2)}},
 	}
 	sizes := []float64{1, 1.0 / (1 << 10), 1.0 / (1 << 17), 1 << 10}
